@@ -301,4 +301,11 @@ def build(ctx):
         return d.value, spec
 
     obs.append(cas_ob(ctx, "canary.cas", "CANARY (must be refuted): density_DAK with molecular weight of air 28.97", canary, GASB, [GAS + "density_DAK"], expect=be.REFUTED))
+    # the density / compressibility identities treat Z as THE root of the equation of state (opaque symbol Z_DAK): that
+    # every returning path of z_factor_DAK delivers the bracketed root is C06's contract, re-verified here on its own engine
+    from ..oblig import Ctx
+    ctx06 = Ctx("C07", ctx.tier, ctx.seed)
+    c06obs = {o.id: o for o in c06.build(ctx06)}
+    src = c06obs["dak.every_return_is_a_root"]
+    obs.append(Obligation("dep." + src.id, "[contract relied upon, C06] " + src.statement, src.run, src.functions, src.backend, src.replay))
     return obs
